@@ -248,10 +248,10 @@ const JUNK: [(&str, &str); 17] = [
     ("close-open", " -/ /- "),
 ];
 
-const LEXEMES: [&str; 33] = [
+const LEXEMES: [&str; 36] = [
     "-- a /- b\n", "--| t /- u\n", "-- x -/ y\n", "-- /- /- -/\n",
     "\r", "\u{a0}", "\u{b}", "\u{2028}", "\u{c}",
-    "/-", "-/", "-- c\n", "--| t\n", "a", "B", "+K", ".d", "(", ")", "\"-/\"", "\"/-\"", "§", "\n",
+    "/-", "-/", "/--/", "/-- ", "-//-", "-- c\n", "--| t\n", "a", "B", "+K", ".d", "(", ")", "\"-/\"", "\"/-\"", "§", "\n",
     " ", "1", "-1", "let", "in", "=", "ret", "'x'", "{", "}",
 ];
 
@@ -304,6 +304,40 @@ pub fn run(opts: &Opts) -> i32 {
                 }
                 let ok = parse_case(&text, &mut sink, &tag);
                 sink.count(&format!("junk_{name}_{}", if ok { "accepted" } else { "rejected" }));
+            }
+        }
+    }
+
+    // (2b) an oracle that does not go through the token definitions: a block comment that is closed
+    // by the documented rules (written out here) leaves what follows it program text - the source
+    // followed by such a comment is still accepted, and followed by the comment and text that is
+    // not a program it is rejected; the same comment at an inner token gap changes nothing
+    const CLOSED: [&str; 8] = ["/--/", "/- -/", "/-\n-/", "/- /- -/ -/", "/-/--/-/", "/- x -/", "/-- -/", "/- \"s\" -/"];
+    for (k, (path, src)) in accepted.iter().map(|x| (&x.0, &x.1)).enumerate() {
+        if !(opts.thorough() || k % 3 == 0) {
+            continue;
+        }
+        let raw = raw_stream(src);
+        let gaps: Vec<usize> = raw.spans.iter().zip(raw.classes.iter()).filter(|(_, c)| **c == Raw::Code).map(|(s, _)| s.1).filter(|g| src.is_char_boundary(*g)).collect();
+        for c in CLOSED {
+            let alone = format!("{src}\n{c}\n");
+            let junk = format!("{src}\n{c}\n) this is not ( a program\n");
+            let tag = format!("{}+closed-comment {c:?}", path.display());
+            let a = parse_case(&alone, &mut sink, &tag);
+            let j = parse_case(&junk, &mut sink, &tag);
+            sink.count(&format!("closed_comment_{}_{}", if a { "accepted" } else { "rejected" }, if j { "junk-accepted" } else { "junk-rejected" }));
+            if !a {
+                sink.violation("c11-closed-comment-breaks-the-source", serde_json::json!({"tag": tag, "comment": c, "source": alone}));
+            }
+            if j {
+                sink.violation("c11-text-after-a-closed-comment-ignored", serde_json::json!({"tag": tag, "comment": c, "source": junk}));
+            }
+            if !gaps.is_empty() {
+                let g = *rng.pick(&gaps);
+                let inner = format!("{} {c} {}", &src[..g], &src[g..]);
+                if !parse_case(&inner, &mut sink, &tag) {
+                    sink.violation("c11-closed-comment-breaks-the-source", serde_json::json!({"tag": tag, "comment": c, "at": g, "source": inner}));
+                }
             }
         }
     }
